@@ -229,6 +229,16 @@ func (C19) Generate(c *Ctx, r *Rand, index int) *Scenario {
 		out = "json0"
 		argv = append(argv, "-e")
 		addOut()
+		if rs.Chance(1, 3) {
+			// the status must not depend on how the results are presented
+			var extra []any
+			for i, n := 0, rs.Range(1, 2); i < n; i++ {
+				f := Pick(rs, []string{"-0", "-0", "-N", "-r", "-P", "-M", "-C", "--unwrapScalar=false"})
+				argv = append(argv, f)
+				extra = append(extra, f)
+			}
+			sc.Meta["presentation_flags"] = extra
+		}
 		expr := e.Combined()
 		if rs.Chance(1, 2) {
 			expr = Pick(rs, []string{".missing", ".g", ".f", ".d[] | . > 5", "select(.a > 5)", ".f, .g", "false", "null", ".c.z", ".e[] | .v > 4", "select(.f) | .f", ".g, .missing", "[]", "\"false\"", "0", ".f and .c.z", ".a > 100"})
@@ -727,7 +737,24 @@ func (C19) Judge(c *Ctx, sc *Scenario) []Violation {
 		}
 		nontrivial = true
 		want1 := true
-		for _, line := range strings.Split(string(ref.Stdout), "\n") {
+		truth := ref
+		if fl, ok := sc.Meta["presentation_flags"].([]any); ok && len(fl) > 0 {
+			// what the results are is read from a run without the presentation flags
+			targv := refArgv
+			for _, f := range fl {
+				if fs, ok := f.(string); ok {
+					targv = removeArg(targv, fs)
+				}
+			}
+			truth = c.Ref(targv, sc.Files, sc.Stdin)
+			if truth.Exit != 0 {
+				return vs
+			}
+			if !c.Quiet {
+				c.Count("probe.exit_status_with_presentation_flags")
+			}
+		}
+		for _, line := range strings.Split(string(truth.Stdout), "\n") {
 			if strings.TrimSpace(line) == "" {
 				continue
 			}
